@@ -11,5 +11,6 @@ func LTSSubjects(variant string) map[string]lts.Subject {
 		"pq3":   PQ{Cmp: variant == "cmp", K: 3},
 		"pq4":   PQ{Cmp: variant == "cmp", K: 4},
 		"tree4": Tree{Variant: variant, N: 4},
+		"typedmap": TypedMap{Variant: variant},
 	}
 }
